@@ -183,6 +183,25 @@ func c18Programs() []Program {
 		s.Alter = "none"
 		ps = append(ps, Program{Kind: "token", Token: &s})
 	}
+	// an option given twice (the later one replaces the earlier), and blocks attached before storing
+	for i := 0; i < 6; i++ {
+		var s USpec
+		s.Key = []string{"ed0", "rsa0", "wrap3"}[i%3]
+		s.Aud = "ed15"
+		s.Fields.Att = []UCap{{Can: "store/add", With: "did:key:z6MkExample", Nb: tvMap(nil)}}
+		e := c18Now + 12000 + i
+		s.Fields.Exp = &e
+		if i%2 == 0 {
+			s.PreOpts = []string{"prf:" + cidPool[0]}
+			s.Fields.Prf = []string{cidPool[1]}
+		}
+		if i >= 2 {
+			s.Attach = 1 + i%3
+			s.Fields.Prf = append(s.Fields.Prf, cidPool[0])
+		}
+		s.Alter = "none"
+		ps = append(ps, Program{Kind: "token", Token: &s})
+	}
 	return ps
 }
 
@@ -236,6 +255,11 @@ func runProgram(p Program) (Artifacts, error) {
 		d, err := delegation.Delegate(sg, audS, caps, opts...)
 		if err != nil {
 			return nil, err
+		}
+		for k := 0; k < s.Attach; k++ {
+			if err := d.Attach(rawCborBlock([]byte{0x18, byte(100 + k)})); err != nil {
+				return nil, err
+			}
 		}
 		out["link"] = d.Link().String()
 		out["root"] = hex.EncodeToString(d.Root().Bytes())
